@@ -32,9 +32,14 @@ func (f *File) Sync() error {
 	if err := f.File.Sync(); err != nil {
 		return err
 	}
-	new := atomic.SwapUint32(&f.new, 1)
-	if new == 0 {
-		return syncDir(f.dir)
+	if atomic.LoadUint32(&f.new) == 0 {
+		if err := syncDir(f.dir); err != nil {
+			// Leave the file marked as new so that the next Sync retries the
+			// directory fsync instead of acknowledging data in a file whose
+			// directory entry may not be durable yet.
+			return err
+		}
+		atomic.StoreUint32(&f.new, 1)
 	}
 	return nil
 }
